@@ -214,11 +214,42 @@ func (a *actor) runActorCommandWithConsumer(
 		close(readerDone)
 	}()
 
+	// The command may still be running with its output closed: every
+	// action and cleanup script redirects its output to a log file, so
+	// the loops above end at once and nobody listens to the stopper,
+	// the context (incl. the time-out) or the prompter any more. Keep
+	// watching for them until the command has exited.
+	waitDone := make(chan struct{})
+	go func() {
+		select {
+		case <-waitDone:
+			return
+		case <-ctx.Done():
+		case <-stopRequested:
+		case <-termCh:
+		}
+		log.Info(ctx, "interrupting command")
+		pgid, err := syscall.Getpgid(cmd.Process.Pid)
+		if err == nil {
+			// First, try to ask the process to terminate gracefully.
+			syscall.Kill(-pgid, syscall.SIGHUP)
+		}
+		select {
+		case <-waitDone:
+		case <-time.After(2 * time.Second):
+			if err == nil {
+				syscall.Kill(-pgid, syscall.SIGKILL)
+			}
+			killCmd()
+		}
+	}()
+
 	// The command should really have terminated by now.
 	if log.V(1) {
 		log.Info(ctx, "waiting")
 	}
 	exitErr = cmd.Wait()
+	close(waitDone)
 	ps = cmd.ProcessState
 	if log.V(1) {
 		log.Infof(ctx, "terminated: %s", ps)
